@@ -1198,6 +1198,15 @@ func parseOnCall(s string, defTags []string) (*Clause, error) {
 			}
 			c.Expr = e
 			rest = ""
+		case w == "assume":
+			// UNCHECKED assumption at this call (listed in the evidence)
+			e, err := ParseExpr(r)
+			if err != nil {
+				return nil, err
+			}
+			c.Expr = e
+			c.GhostName = "assume"
+			rest = ""
 		default:
 			return nil, fmt.Errorf("unexpected %q in on-call clause", w)
 		}
